@@ -194,42 +194,40 @@ def predefined_finish(ck, pending):
 
 
 STACK_PROBE = r"""
-import sys, numpy as np, torch
+import sys, threading, numpy as np, torch
 from torchlogix.layers import LogicDense, GroupSum
 from torchlogix.compiled_model import CompiledLogicNet
 n = int(sys.argv[1])
 m = torch.nn.Sequential(torch.nn.Flatten(), LogicDense(n, 16, device="cpu"), LogicDense(16, 10, device="cpu"), GroupSum(10, device="cpu"))
+m.eval()
 net = CompiledLogicNet(m, num_bits=64)
 net.compile(opt_level=0)
-y = net.forward(np.zeros((1, n), dtype=bool))
-print("RESULT", tuple(y.shape))
+x = np.random.RandomState(0).rand(3, n) > 0.5
+y = net.forward(x)
+with torch.no_grad():
+    yt = m(torch.tensor(x, dtype=torch.float32))
+res = {}
+threading.stack_size(256 * 1024)
+t = threading.Thread(target=lambda: res.update(y=net.forward(x)))
+t.start(); t.join()
+print("RESULT", tuple(y.shape), bool(torch.equal(y.float(), yt)), bool("y" in res and torch.equal(res["y"], y)))
 """
 
 
 def stack_exhaustion_replay(ck):
-    """Recorded finding F27: every intermediate buffer of logic_net is an automatic (stack) array, so a network whose buffers exceed the
-    thread's stack limit kills the process.  Replayed in a child process: 1 100 000 inputs (8.8 MB at 64 bits) against the default
-    8 MiB limit, with 100 000 inputs as the control that must work."""
-    import resource
+    """F27 (repaired): the intermediate buffers of logic_net used to be automatic arrays, so a network whose buffers exceeded the thread's
+    stack limit killed the process.  A child process runs a network with 1 100 000 inputs (8.8 MB of buffers at 64 bits, more than the
+    default 8 MiB stack) - also from a thread with a 256 KiB stack - and compares with the eval-mode model."""
     import subprocess
     import sys
-    soft = resource.getrlimit(resource.RLIMIT_STACK)[0]
     env = dict(os.environ, OMP_NUM_THREADS="1")
-    for n, must_work in ((100_000, True), (1_100_000, False)):
-        need = n * 8
-        ck.case({"kind": "stack", "inputs": n, "bytes_of_locals": need, "stack_limit": soft}, kind="stack-replay")
-        if not must_work and (soft == resource.RLIM_INFINITY or soft > need + (1 << 20)):
-            ck.notes.append("stack limit too large to replay F27 here")
-            continue
-        p = subprocess.run([sys.executable, "-W", "ignore", "-c", STACK_PROBE, str(n)], capture_output=True, text=True, env=env, timeout=600)
-        if must_work:
-            if p.returncode != 0 or "RESULT (1, 10)" not in p.stdout:
-                ck.disagree("a compiled network with a 100 000-word buffer cannot be run", {"inputs": n, "returncode": p.returncode},
-                            observed=p.stderr[-300:], signature={"what": "large-buffer", "inputs": n})
-        elif p.returncode < 0:
-            ck.disagree("a compiled network whose automatic buffers exceed the stack limit kills the process",
-                        {"inputs": n, "bytes_of_locals": need, "stack_limit": soft, "signal": -p.returncode},
-                        signature={"what": "stack-exhaustion"})
+    for n in (100_000, 1_100_000):
+        ck.case({"kind": "stack", "inputs": n, "bytes_of_buffers": n * 8}, kind="stack-replay")
+        p = subprocess.run([sys.executable, "-W", "ignore", "-c", STACK_PROBE, str(n)], capture_output=True, text=True, env=env, timeout=900)
+        if p.returncode != 0 or "RESULT (3, 10) True True" not in p.stdout:
+            ck.disagree("a compiled network with large intermediate buffers cannot be run (process killed or wrong result)",
+                        {"inputs": n, "bytes_of_buffers": n * 8, "returncode": p.returncode}, observed=(p.stdout + p.stderr)[-300:],
+                        signature={"what": "stack-exhaustion", "inputs": n})
 
 
 def replay(ck, path):
